@@ -192,6 +192,26 @@ def idtSpikeAreaCore (E : Ext K) (x y fit : List K) (cp : K) : Option K :=
       divO (s + peaks) ymax
     else none
 
+/-- `np.max(np.abs(r[a:b]))`, only evaluated when `a ≠ b` -/
+def segMax (r : List K) (a b : Nat) : Option K :=
+  if a ≠ b then lmax (((r.drop a).take (b - a)).map (|·|)) else none
+
+/-- `feat_con_idt_maxima_75perc` before `log(1 + ·) * 2` -/
+def idtMaxima75Core (E : Ext K) (x y fit : List K) (cp : K) : Option K :=
+  let idmin := (idx75 x cp).1
+  let idmax := (idx75 x cp).2
+  if idmax - idmin > 1 then
+    let idcen := idmin + (idmax - idmin) / 2
+    let r := List.zipWith (fun yi f => yi - f) y fit
+    let sm := E.gauss 11 r
+    let z1 := idmin + (argmin (((sm.drop idmin).take (idcen - idmin)).map (|·|))).getD 0
+    let z2 := idcen + (argmin (((sm.drop idcen).take (idmax - idcen)).map (|·|))).getD 0
+    let ydiffs := [segMax r idmin z1, segMax r z1 z2, segMax r z2 idmax].filterMap id
+    match lmax y with
+    | none => none
+    | some ymax => if ydiffs.isEmpty then none else divO ydiffs.sum ymax
+  else none
+
 /-! ### feature names: `get_feature_names`, `compute_features` -/
 
 inductive FType | all | binary | continuous
